@@ -35,6 +35,9 @@ struct Job {
     /// microseconds every next() of a by-value iterator source sleeps (free mode: widens turnstile races)
     #[serde(default)]
     sleep_us: u32,
+    /// the first next() of a by-value iterator source waits until this many workers have begun
+    #[serde(default)]
+    hold_workers: u32,
     #[serde(default = "dflt_timeout")]
     timeout_ms: u64,
     #[serde(default = "one")]
@@ -86,7 +89,7 @@ fn prebuild(p: &Prog) -> (Prebuilt, Option<Vec<(u32, i32)>>) {
     }
 }
 
-fn run_prog(ctx: &Ctx, spin: u32, sleep_us: u32, logcalls: bool, pre: Prebuilt) -> Out {
+fn run_prog(ctx: &Ctx, spin: u32, sleep_us: u32, hold: u32, logcalls: bool, pre: Prebuilt) -> Out {
     let p = &ctx.prog;
     let shape = p.shape();
     match pre {
@@ -101,8 +104,8 @@ fn run_prog(ctx: &Ctx, spin: u32, sleep_us: u32, logcalls: bool, pre: Prebuilt) 
     }
     match p.src.as_str() {
         "vec" => shapes::run_vec(&shape, ctx, exec::items_of(p)),
-        "iter" => shapes::run_iter(&shape, ctx, exec::SrcIter::new(exec::items_of(p), true, spin, logcalls, sleep_us)),
-        "iterx" => shapes::run_iter(&shape, ctx, exec::SrcIter::new(exec::items_of(p), false, spin, logcalls, sleep_us)),
+        "iter" => shapes::run_iter(&shape, ctx, exec::SrcIter::new(exec::items_of(p), true, spin, logcalls, sleep_us, hold)),
+        "iterx" => shapes::run_iter(&shape, ctx, exec::SrcIter::new(exec::items_of(p), false, spin, logcalls, sleep_us, hold)),
         "slice" => {
             let items = exec::items_of(p);
             shapes::run_slice(&shape, ctx, &items[..])
@@ -265,7 +268,7 @@ fn cmd_run(inp: &str, outp: &str) {
 
         let ctx = Ctx::new(&job.p);
         let spin = job.spin;
-        let res = std::panic::catch_unwind(std::panic::AssertUnwindSafe(|| run_prog(&ctx, spin, job.sleep_us, job.logcalls != 0, pre)));
+        let res = std::panic::catch_unwind(std::panic::AssertUnwindSafe(|| run_prog(&ctx, spin, job.sleep_us, job.hold_workers, job.logcalls != 0, pre)));
         let res = res.map_err(|_| ());
         log_te(&res, job.p.is_big());
         drop(res);
